@@ -205,6 +205,12 @@ def step (st : State) (w : List String) : State × String :=
     match hexStr name, qt.toNat? with
     | some q, some t => (st, serveStr (serveDNS st.cfg st.ps.mem q t))
     | _, _ => (st, "bad-op")
+  | ["bl", "linkmain"] =>
+    -- the main file becomes a symbolic link to the same content (an absent file: to an empty complete list)
+    let main := match st.ps.main with
+      | none => some [headerLine]
+      | m => m
+    ({ st with ps := { st.ps with main := main } }, "ok")
   | ["bl", "len"] => (st, s!"len={st.ps.mem.length} ver={st.ps.version} lp={st.ps.lastPersisted}")
   | ["bl", "bulk", kind, n, sfx] =>
     match n.toNat?, hexStr sfx with
